@@ -20,7 +20,7 @@ NOTES = {
  "C09": ("`compound_refines_map` for every injective prefix-free codec; `fixed_then_tail_prefixFree`, `tuple_order`, schema instances from C07", "codecs generated from random field schemas; user codecs outside the contract are not claimed", "DESIGN §5 C09"),
  "C10": ("`find_spec`, `abs_sorted`, `add_spec`, `remove_spec`, `mergeHdr_spec` for all four classes incl. every grow/shrink, SWAR lemmas (`searchNode4_spec`, `insertPosNode4_spec`, lane permutations) on the definitions regenerated from node4.go; `C10Asm.amd64_searchNode16_spec` / `amd64_insertPosNode16_spec`: the two routines of node16_amd64.s, regenerated instruction by instruction into `Gen/Asm.lean` and run on an instruction model, return the lane-level scalar scan for every register file on entry, every content of all sixteen lanes and every fill ≤ 16 (`amd64_stale_lanes_irrelevant`); `C10Arm64.*`: on an (unvalidated) instruction model node16_arm64.s ignores the fill count and a reachable node16 makes findChild return a deleted child – a model-level finding, no verdict depends on it",
          "bv_decide native axioms for the SWAR and assembly lemmas (disclosed); Model/Amd64.lean (meaning of sixteen instructions) is trusted and executed next to the real routines on every run (asmdrv); the portable node16 routines are tied to the lane-level model by correspondence (GOARCH=386 legs, structured exhaustive sweep in the thorough tier); node16_arm64.s cannot be run here: its model is not validated beyond the decoding of its raw WORDs by the Go disassembler, and C10 is claimed for amd64 and the portable routines only", "DESIGN §5 C10, §10.7, §10.8"),
- "C11": ("`C11RawTree.rtree_refines_map` (a tree of RAW node records – SWAR word, lanes, index, slots – simulates the abstract tree for Search/Insert/Delete and keeps `Raw.inv` on every node), `wf_step`, `wf_after_history`, `stored_key_reachable`, `keys_below_share_path`, `thresholds_consistent` on regenerated constants; raw invariant + abstraction checked by the Lean driver on a dump after every operation",
+ "C11": ("`C11RawTree.rtree_refines_map` (a tree of RAW node records – SWAR word, lanes, index, slots – simulates the abstract tree for Search/Insert/Delete and keeps `Raw.inv` on every node), `wf_step`, `wf_after_history`, `stored_key_reachable`, `keys_below_share_path`, `thresholds_consistent` on regenerated constants; raw invariant + abstraction checked by the Lean driver on a dump after every operation; the tree of RAW node records (`Model/RTree`, the subject of `C11RawTree.rtree_refines_map`) is run in lockstep by the correspondence driver and compared with every real dump field by field – class, childrenLen, prefixLen, all ten prefix bytes, every lane / index byte including unoccupied ones, the occupancy of every slot, the slot of every child",
          "recorded fan-out of a node256 holding 256 children is 0 (known finding D10)", "DESIGN §5 C11"),
  "C12": ("`clear_covers_all_fields`, `pool_sites_match_type`, `put_after_clear_and_unlink` decided on fact tables regenerated from node.go/pool.go; `world_step_independent`, `emptied_is_init`; interleaved multi-tree correspondence",
          "partial: sync.Pool itself and object identity are outside the model; the tie is the per-tree correspondence of interleaved histories", "DESIGN §5 C12"),
